@@ -68,6 +68,11 @@ inductive Outcome
   /-- a response with that status arrived and the caller cancelled the request's context before
   the wait before the next attempt (the round-trip error, if any, does not wrap `Canceled`) -/
   | lateCancel (code : Nat)
+  /-- no response, a transport error that has nothing to do with the context (connection reset,
+  the client's own per-attempt timeout …) — and the request's context is done (cancelled by the
+  caller, or its deadline passed) by the time the wait before the next attempt begins: error KIND
+  and context STATE are independent (round 5) -/
+  | lateTransport
 deriving DecidableEq, Repr
 
 inductive ErrKind
@@ -174,12 +179,14 @@ def roundTrip (v : Variant) (ra : Nat) : Outcome → Option Resp × Option Err
   | .beforeErr => (none, some (ra, .before))
   | .deadlineCtx => (some ⟨ra, .noHttp, some (ra, .deadline)⟩, some (ra, .deadline))
   | .lateCancel c => (some ⟨ra, .status c, none⟩, none)
+  | .lateTransport => (some ⟨ra, .noHttp, some (ra, .transport)⟩, some (ra, .transport))
 
 /-- Is the request's context done when the wait before the next attempt begins?  (After a
 `cancelled` outcome the question does not arise: the loop has returned before.) -/
 def Outcome.ctxDone : Outcome → Bool
   | .deadlineCtx => true
   | .lateCancel _ => true
+  | .lateTransport => true
   | _ => false
 
 def viewOf : Option Resp → RespView
@@ -313,6 +320,7 @@ def Outcome.errKind : Outcome → Option ErrKind
   | .beforeErr => some .before
   | .deadlineCtx => some .deadline
   | .lateCancel _ => none
+  | .lateTransport => some .transport
 
 def Outcome.view : Outcome → RespView
   | .status c => .status c
